@@ -19,7 +19,7 @@ func init() {
 			"(R2b) the early-return guard's truth table is exactly: killed∧¬zombie, or user∧state≠running∧¬zombie; (R3) a dead-letter emission is dominated by a condition that separates the root, so the root cannot feed itself; " +
 			"(R4) the guard actor republishes a received dead letter exactly once on the event stream; (R5) both terminal paths of an actor whose mailbox may be paused resume it (parked mail drains to dead letters); " +
 			"(R6) every failing exit of the remoting send reports the envelope, and the report emits one dead letter. " +
-			"(R7) the mailbox cache inside a reference is written only with the mailbox of a context found registered at the reference's path, a dead-lettering mailbox, or the root's own for the root's path — never with the mailbox of an actor the reference does not name; (R10) when nothing is registered at a local path the lookup yields a mailbox whose Enqueue turns the envelope into a dead letter on every path (the root's own mailbox only for the root's own path). (R8 = C01.R2) a message accepted by Enqueue is never stranded in an idle mailbox; (R9) the registry removal routine, which deletes by path, is called only from the dying actor's own cleanup step with its own context. (R11 = C09.R7) whatever the supervisor paused is recorded as a target on every path of apply-decision, so the resume of this or a higher level reaches it and parked mail surfaces; (R12 = C02.R6) a stashed message leaves the stash only through Unstash. (R13 = C02.R4) Unstash re-enqueues exactly the prefix it removes; (R14) the ask routine enqueues its request envelope on every path, whatever became of its future; (R15 = the closer check of C04.R1) a completed ask is unregistered exactly once on every completing path (time-out included), so a late reply misses the registry and becomes a dead letter instead of vanishing in the closed future. NOT decided: exactly-once accounting across racing sends and transitions; staleness of a correctly filled cache across name reuse.",
+			"(R7) the mailbox cache inside a reference is written only with the mailbox of a context found registered at the reference's path, a dead-lettering mailbox, or the root's own for the root's path — never with the mailbox of an actor the reference does not name; (R10) when nothing is registered at a local path the lookup yields a mailbox whose Enqueue turns the envelope into a dead letter on every path (the root's own mailbox only for the root's own path). (R8 = C01.R2) a message accepted by Enqueue is never stranded in an idle mailbox; (R9) the registry removal routine, which deletes by path, is called only from the dying actor's own cleanup step with its own context. (R11 = C09.R7) whatever the supervisor paused is recorded as a target on every path of apply-decision, so the resume of this or a higher level reaches it and parked mail surfaces; (R12 = C02.R6) a stashed message leaves the stash only through Unstash. (R13 = C02.R4) Unstash re-enqueues exactly the prefix it removes; (R14) the ask routine enqueues its request envelope on every path, whatever became of its future; (R15 = the closer check of C04.R1) a completed ask is unregistered exactly once on every completing path (time-out included), so a late reply misses the registry and becomes a dead letter instead of vanishing in the closed future; (R16) every return of the lookup that yields the root's own mailbox is dominated by an edge on which the reference names the root, is nil, or the system context is done — never a fallback for an unroutable reference (F43: with remoting disabled a Kill addressed to another node killed the system). NOT decided: exactly-once accounting across racing sends and transitions; staleness of a correctly filled cache across name reuse.",
 		Assumptions: []string{"the dead-letter emission is TellSelf(ves.DeathLetterEvent) on the system (root) context"},
 		Rules: []Rule{
 			{ID: "C03.R1", Min: 2, Desc: "mailbox lookup is total", Fn: c03Lookup},
@@ -38,6 +38,7 @@ func init() {
 			{ID: "C03.R15", Min: 1, Desc: "a completed ask is unregistered exactly once on every completing path, so a late reply misses the registry and is dead-lettered (the closer check of C04.R1)", Fn: func(p *Program, r *Report) {
 				r.only(c04OneShot, func(c string) bool { return strings.Contains(c, "closer") })
 			}},
+			{ID: "C03.R16", Min: 2, Desc: "the mailbox lookup hands out the root's own mailbox only for the root (own path, nil reference, system context done)", Fn: c03RootMailboxOnlyForRoot},
 			{ID: "C03.R7", Min: 1, Desc: "a reference caches only the mailbox of the actor registered at its path (or a dead-lettering one)", Fn: c03CacheSound},
 		},
 	})
@@ -948,4 +949,90 @@ func c03AskSends(p *Program, r *Report) {
 	})
 	ok := len(sends) > 0 && !anyIn(g.Reach(g.entry(), sends, g.nilArgEdges()), g.Exits)
 	r.Check(ok, "Ask enqueues its request on every path", f.Ask.Pos(), "no path through the ask routine returns without handing the request envelope to the recipient's mailbox: a request is processed, stashed or dead-lettered like any other user message, whatever became of its future")
+}
+
+// c03RootMailboxOnlyForRoot — the mailbox lookup hands out the root's own mailbox only for the root.
+//
+// Whatever is enqueued into the root's mailbox is handled by the root as its own mail: a user message is swallowed, a Kill
+// terminates the root — the whole system. So every return of the lookup that yields the receiver's own Mailbox() is dominated by
+// an edge on which the reference names the root (own-path equality), is absent (nil argument), or the system's context is
+// already done (nothing is delivered any more). A fallback to the root's mailbox for "cannot route this" (remoting disabled)
+// turns a Kill addressed to an actor on another node into a kill of this system (F43; same hazard as F2/F34).
+func c03RootMailboxOnlyForRoot(p *Program, r *Report) {
+	lc := lcOrFail(p, r)
+	if lc == nil {
+		return
+	}
+	find := p.mailboxLookup(lc)
+	if find == nil {
+		r.Unresolved("mailbox lookup")
+		return
+	}
+	g := p.igx(find) // the lookup may be split into helpers for the remote and the local case
+	defer p.withGraph(g)()
+	allowed := mergeEdges(ownPathEdges(p, g), g.nilArgEdges())
+	done, _ := callEdges(g, func(c *ssa.Call) bool {
+		return c.Call.IsInvoke() && c.Call.Method.Name() == "Err" && typeIs(c.Call.Value.Type(), "context", "Context")
+	})
+	// Err() != nil is a nil test of a call result, not a bool: collect those edges too
+	for _, ifi := range g.ifs() {
+		for _, oc := range []bool{true, false} {
+			f, ok := condFact(ifi.Cond, oc)
+			if !ok || !f.IsNil || f.Op != token.NEQ {
+				continue
+			}
+			if c, isC := strip(f.X).(*ssa.Call); isC && c.Call.IsInvoke() && c.Call.Method.Name() == "Err" && typeIs(c.Call.Value.Type(), "context", "Context") {
+				done[g.branchEdge(ifi, oc)] = true
+			}
+		}
+	}
+	allowed = mergeEdges(allowed, done)
+	n := 0
+	var rets []int
+	for _, ex := range g.Exits {
+		rets = append(rets, g.effectiveReturns(ex, 0)...)
+	}
+	for _, ex := range rets {
+		ret, ok := g.Nodes[ex].(*ssa.Return)
+		if !ok || len(ret.Results) != 1 {
+			continue
+		}
+		for _, v := range []ssa.Value{ret.Results[0]} {
+			v = strip(v)
+			if mi, isMI := v.(*ssa.MakeInterface); isMI {
+				v = strip(mi.X)
+			}
+			c, isC := v.(*ssa.Call)
+			if !isC || c.Call.StaticCallee() == nil || c.Call.StaticCallee().Name() != "Mailbox" {
+				continue
+			}
+			// the receiver's own mailbox: Mailbox() called on the lookup's receiver (the system / its embedded root context)
+			rc := callRecv(&c.Call)
+			own := false
+			for x := rc; x != nil; {
+				x = strip(x)
+				if g.res(x) == ssa.Value(find.Params[0]) || x == ssa.Value(find.Params[0]) {
+					own = true
+					break
+				}
+				if f, base := fieldLoad(x); f != nil && base != nil {
+					x = base
+					continue
+				}
+				if fa, isFA := x.(*ssa.FieldAddr); isFA {
+					x = fa.X
+					continue
+				}
+				break
+			}
+			if !own {
+				continue
+			}
+			n++
+			r.Check(len(allowed) > 0 && g.DominatedByEdges(ex, allowed), "the root's mailbox is handed out only for the root", ret.Pos(), "this return of the receiver's own Mailbox() is dominated by an edge on which the reference names the root (own path), is nil, or the system context is done — never a fallback for a reference that cannot be routed")
+		}
+	}
+	if n == 0 {
+		r.Unresolved("returns of the root's own mailbox in the mailbox lookup")
+	}
 }
